@@ -44,8 +44,11 @@ def sel_case(draw, tier):
     for tail_ in draw(st.lists(st.sampled_from([b"a", "a", None, 1, 1.0, "b", b"b", (), []]), max_size=3)):
         p.append(tuple(base) + (tail_,))
         p.append(list(base) + [tail_])
+    pair = None
     if draw(st.booleans()):
-        p.extend(draw(st.sampled_from(gen.SEQ_TWINS + gen.SEQ_NEAR)))
+        pair = draw(st.sampled_from(gen.SEQ_TWINS + gen.SEQ_NEAR))
+        p.extend(pair)
+        p.extend(pair)
     cell = st.sampled_from(p)
     nf = draw(st.sampled_from([1, 2, 3]))
     hdr = ["a", "b", "c"][:nf]
@@ -57,6 +60,9 @@ def sel_case(draw, tier):
     c = {"selector": sel, "table": tbl, "field": draw(st.one_of(st.sampled_from(hdr), st.integers(0, nf - 1))),
          "complement": draw(st.booleans()), "value": draw(st.one_of(st.sampled_from(p), POOLV)),
          "value2": draw(st.one_of(st.sampled_from(p), POOLV))}
+    if pair is not None and draw(st.booleans()):
+        # compare the cells with one member of the pair (the other member is in the cell pool)
+        c["value"] = pair[draw(st.integers(0, 1))]
     if sel in ("selectin", "selectnotin"):
         c["value"] = draw(st.lists(st.sampled_from(p), max_size=3))
     if sel == "selectisinstance":
